@@ -57,7 +57,13 @@ func (c *Canon) Val(v reflect.Value, depth int) {
 	if v.Type() == timeType {
 		if v.CanInterface() {
 			t := v.Interface().(time.Time)
-			c.sb.WriteString("time(" + t.UTC().Format(time.RFC3339Nano) + ")")
+			// the instant, and the zone offset the value carries when it is not UTC (a value "exactly equal" to another
+			// shows the same wall clock, not only the same instant)
+			zone := ""
+			if _, off := t.Zone(); off != 0 {
+				zone = fmt.Sprintf(" @%+ds", off)
+			}
+			c.sb.WriteString("time(" + t.UTC().Format(time.RFC3339Nano) + zone + ")")
 		} else {
 			// unexported time: print fields
 			fmt.Fprintf(&c.sb, "time{%d,%d}", v.Field(0).Uint(), v.Field(1).Int())
